@@ -1031,6 +1031,7 @@ type runObs struct {
 	RestIn string `json:"restinput,omitempty"`
 	Vars   string `json:"vars,omitempty"`
 	Seed   string `json:"seed,omitempty"`
+	Ops    int64  `json:"ops"` // NumOpCount after the run: the work is accounted for alike on both VMs
 }
 
 func observe(vm *ds.Context, src string) (o runObs) {
@@ -1061,6 +1062,7 @@ func observe(vm *ds.Context, src string) (o runObs) {
 	o.Vars = dumpJSON(dumpMap9(vm.Attrs))
 	sd, _ := vm.GetCurSeed()
 	o.Seed = hex.EncodeToString(sd)
+	o.Ops = int64(vm.NumOpCount)
 	return
 }
 
@@ -1174,6 +1176,13 @@ func snapshotAt(cfg vmCfg, hi, lo uint64, prog []string, p int, follow []string,
 		b := mkB()
 		oa, ob := observe(a, fu), observe(b, fu)
 		follows++
+		// the operation counter: a body compiled on first use (restored functions / computed values) executes one more instruction
+		// (its `halt`) than the pre-compiled body of the original — at most one per body; anything else is a difference in accounting
+		opsA, opsB := oa.Ops, ob.Ops
+		oa.Ops, ob.Ops = 0, 0
+		if oa == ob && (opsB < opsA || opsB > opsA+16) {
+			oa.Ops, ob.Ops = opsA, opsB
+		}
 		if oa != ob {
 			// is the follow-up deterministic at all?  (text of a multi-entry dict: Go map order, KF-C06-map-order.)  Repeat both
 			// sides from scratch: a side that shows two different observations, or observations shared between the sides, says
@@ -1185,8 +1194,10 @@ func snapshotAt(cfg vmCfg, hi, lo uint64, prog []string, p int, follow []string,
 					runQuiet(a2, prog[q])
 				}
 				b2 := mkB()
-				seenA[observe(a2, fu)] = true
-				seenB[observe(b2, fu)] = true
+				x2, y2 := observe(a2, fu), observe(b2, fu)
+				x2.Ops, y2.Ops = oa.Ops, ob.Ops
+				seenA[x2] = true
+				seenB[y2] = true
 			}
 			if len(seenA) > 1 || len(seenB) > 1 {
 				t := base
